@@ -333,7 +333,7 @@ func table(path string) {
 			vh.Violation("panic:ValidateTxMerkleTreeProof", "panic validating the generated proof: "+pan, base)
 		} else if got != d.OK {
 			vh.Violation("generate:proof-"+verdict(got), fmt.Sprintf("proof generated for n=%d S=%v (flags %v) is %s by ValidateTxMerkleTreeProof against the block root; Merkle.tla: Complete", d.N, d.S, pf, verdict(got)),
-				map[string]interface{}{"n": d.N, "S": d.S, "ids": hexes(w.ids), "proof": hexes(ph), "flags": pf})
+				map[string]interface{}{"n": d.N, "S": d.S, "ids": hexes(w.ids), "proof": hexes(ph), "flags": ints(pf)})
 		}
 		sh, sf := conc(d.H), u8s(d.F)
 		if len(ph) == len(sh) && bytes.Equal(pf, sf) {
@@ -353,7 +353,7 @@ func table(path string) {
 				naccept++
 			}
 			got, pan := realValidate(h, f, rl, rt)
-			rep := map[string]interface{}{"n": d.N, "S": d.S, "ids": hexes(w.ids), "proof": hexes(h), "flags": f, "related": hexes(rl), "root": hex.EncodeToString(rt.Bytes()), "expected": exp, "variant": desc}
+			rep := map[string]interface{}{"n": d.N, "S": d.S, "ids": hexes(w.ids), "proof": hexes(h), "flags": ints(f), "related": hexes(rl), "root": hex.EncodeToString(rt.Bytes()), "expected": exp, "variant": desc}
 			if pan != "" {
 				vh.Violation("panic:ValidateTxMerkleTreeProof:"+kind, fmt.Sprintf("ValidateTxMerkleTreeProof panicked (n=%d S=%v variant %v): %s", d.N, d.S, desc, pan), rep)
 				return
@@ -455,7 +455,7 @@ func generate(splits []int, only int, emit func(k kase, concrete map[string]inte
 	r := rand.New(rand.NewSource(vh.Seed()))
 	groups, nvar := 150, 24
 	if vh.Tier() == "thorough" {
-		groups, nvar = 1500, 40
+		groups, nvar = 2500, 40
 	}
 	sizes := []int{0, 1, 2, 3, 4, 5, 7, 8, 9, 15, 16, 17, 31, 32, 33, 63, 64}
 	i := 0
@@ -511,7 +511,7 @@ func generate(splits []int, only int, emit func(k kase, concrete map[string]inte
 			}
 			got, pan := realValidate(h, f, rl, rt)
 			emit(kase{I: i, G: g, Kind: kind, N: n, S: S, Rel: rlc, H: hcodes, F: ints(f), Root: rtc, BlockRoot: rootc, Got: got, Panic: pan, Desc: desc},
-				map[string]interface{}{"ids": hexes(w.ids), "S": S, "proof": hexes(h), "flags": f, "related": hexes(rl), "root": hex.EncodeToString(rt.Bytes())})
+				map[string]interface{}{"ids": hexes(w.ids), "S": S, "proof": hexes(h), "flags": ints(f), "related": hexes(rl), "root": hex.EncodeToString(rt.Bytes())})
 		}
 		one("genuine", "generated proof, untampered", ph, hc, pf, rel, relc, root, rootc)
 		// alternatives for hash substitutions: every node of the tree, a foreign value, the empty-string hash
